@@ -23,7 +23,7 @@ func init() {
 		ID:    "C16",
 		Level: "exploration",
 		Cases: func(tier string) int { return vlib.TierN(tier, 640, 240000) },
-		Rule: "case idx runs class idx%8 of {message/equals, message/copy, cqrs/json, cqrs/proto, cqrs/gogo, forwarder, reply, forwarder/pubsub} on a batch of generated inputs " +
+		Rule: "case idx runs class idx%10 of {message/equals, message/copy, cqrs/json, cqrs/proto, cqrs/gogo, forwarder, reply, forwarder/pubsub, cqrs/proto-schema, cqrs/gogo-schema} on a batch of generated inputs " +
 			"(counter `inputs`; 7 hand-written small pairs + 48 messages x 14 pair mutations for equals, 64 messages for copy, 64 values + a fixed 16-step size ladder (encodings of 0..9000 bytes growing and shrinking through 4 KiB, marshaled back to back, all messages held) per marshaler case, " +
 			"24 random + 8 edge-grid messages through forwarder.Publisher -> captured envelope -> one real Forwarder (scripted ends), 12 random + 8 edge-grid messages through forwarder.Publisher -> GoChannel -> Forwarder -> GoChannel -> plain subscriber (forwarder/pubsub, batches judged as multisets), 64 replies). " +
 			"NON-FRESH UNMARSHAL TARGETS (all three cqrs marshalers): after the round trip into a fresh zero value every message is also decoded into (a) the one target that is kept per Go type for the whole batch and still holds the previous value of that type " +
@@ -50,13 +50,31 @@ func init() {
 			"map[string]map[string]interface{} at depth <= 4, also as the top-level value (*map[string]interface{}, *[]interface{}, *interface{}), holding only fixed points of encoding/json " +
 			"(nil, bool, finite float64 incl. integral/huge/-0, string, non-nil nested maps/slices; counters `untyped_slot_*`, `values_with_numbers_in_untyped_slots`); the same types are used as request-reply results. " +
 			"Every generated JSON value is first round-tripped through encoding/json alone; a value that is not a fixed point there is a harness error. On a mismatch the first differing path with both dynamic types is reported. " +
+			"PROTOBUF SCHEMA CLASSES. cqrs/proto-schema runs the same round-trip program (fresh, reused, pre-populated targets, held messages, size ladder, corpus sweep) with ProtoMarshaler over values of generated code of a schema (c16pb, ordinary protoc-gen-go output: proto3 Event/Leaf with every scalar kind, " +
+			"proto3 `optional` scalars, packed and unpacked repeated fields, 8 map types, two oneofs with 12+2 arms, recursion and well-known types as fields; proto2 Legacy with required/optional-with-default/group/map/oneof/extension range and 3 registered extensions; their older schema revisions EventOld/LeafOld/LegacyOld/EventOpaque), " +
+			"of the well-known types (struct, any, timestamp, duration, field mask, the nine wrappers, empty, api, type, source context) and of descriptor.proto/plugin.proto types, drawn by a descriptor-driven generator: per field unset / present-but-zero (`proto_presence_fields_set_to_zero_value`, `proto_message_fields_present_but_empty`) / random; " +
+			"every oneof arm and 'no arm' (random, plus a sweep: every 3rd generated value realises the next of the 26 (oneof, arm-or-unset) slots of Event, Legacy and structpb.Value, `proto_oneof_sweep_values`); lists and maps nil / empty non-nil (set through Go reflection, `proto_lists_empty_non_nil`, `proto_maps_empty_non_nil`, `proto_bytes_empty_non_nil`) / with zero-valued elements, " +
+			"map entries with zero key and/or zero value (`proto_map_entries_zero_*`); floats incl. -0, +-Inf, NaN with canonical and other payloads (`proto_floats_*`); open-enum numbers the schema does not declare; registered extensions (`proto_extension_fields_set`); " +
+			"UNKNOWN FIELDS (`values_with_unknown_fields_at_top_level`, `..._in_nested_messages`, `proto_nodes_with_unknown_fields`): set with protoreflect SetUnknown on the top-level message and/or on nested nodes (children, list elements, map values, oneof arms, well-known types inside; modes none 3 / top 2 / nested 2 / both 2 / many 1 of 10) - undeclared field numbers, all wire types incl. groups, " +
+			"also a declared string/bytes/message field number with a fixed32/fixed64 wire type - and obtained by decoding (harness side, protobuf library) the encoding of a value of the richer type into the older revision of the schema (Event->EventOld/EventOpaque, Leaf->LeafOld, Legacy->LegacyOld/Empty; `proto_values_decoded_from_richer_schema`); " +
+			"real FileDescriptorProtos of registered files; large messages (about 1 value in 3 cases: 100 KiB..2 MiB, rarely 8-12 MiB, as one bytes field, many list elements, many map entries, a 150-deep chain, one large unknown field, many unknown fields; `values_large_100KiB_to_12MiB`; plain and held round trip only). " +
+			"Every generated value is first round-tripped through the protobuf library alone (a value that is not a fixed point there is a harness error). Protobuf values are compared with proto.Equal AND by byte equality of their deterministic encodings. " +
+			"cqrs/gogo-schema does the same with the deprecated gogo ProtobufMarshaler: odd values are of gogo-generated types (gogo/protobuf/types: Value in every arm and unset - sweep over the 7 slots -, Struct/ListValue trees, wrappers, Timestamp, Duration, Any, FieldMask, Empty) with unknown fields (XXX_unrecognized) at the top level and/or nested, NaN/Inf/-0, nil vs empty maps/lists/bytes; " +
+			"even values are google.golang.org/protobuf messages of the schema family above (counters `gogo_std_*`; see Assumptions for the known defect that is counted instead of judged). A schema case is non-trivial when, in addition to the codec rule below, its batch had values with unknown fields at the top level and nested, a oneof arm set and a oneof unset and a presence field set to zero. " +
 			"A case is non-trivial when its batch contained non-empty metadata / multi-byte or control strings / non-empty binary payloads (per class) and at least one expected-true and " +
 			"one expected-false comparison (equals) resp. at least one metadata edit (copy) resp. at least one non-zero value (codecs); distinct = hash of (class, generated inputs).",
 		Assumptions: []string{
 			"strings are valid UTF-8 (the statement's quantifier); invalid UTF-8 is out of scope because encoding/json and proto3 do not preserve it",
 			"payload equality is equality of the byte strings: nil and empty payloads coincide; nil and empty metadata have the same (empty) key/value set",
 			"Copy shares the payload slice by design (godoc: only metadata ownership is promised), so payload aliasing is not checked",
-			"JSON values are compared with reflect.DeepEqual on types whose encoding/json round-trip is exact (finite floats, UTC times without monotonic reading); protobuf values with proto.Equal (no NaN)",
+			"JSON values are compared with reflect.DeepEqual on types whose encoding/json round-trip is exact (finite floats, UTC times without monotonic reading)",
+			"protobuf values (google.golang.org/protobuf) are the same value when proto.Equal says so (same type, same populated known and extension fields, same unknown fields; NaN equals NaN, as proto.Equal documents) AND their deterministic encodings are byte-equal " +
+				"(which additionally separates -0 from +0 and NaNs with different payloads: the wire format carries the IEEE bits verbatim, and 'Unmarshal after Marshal is the identity' is read bit-exactly); the family is the set of values the protobuf library itself maps to themselves (checked per generated value). " +
+				"Not generated: nil elements in lists/maps of messages (undefined in the Go API), invalid UTF-8 in proto3 strings, unknown-field bytes that use a field number the type declares with a fitting wire type or a registered extension number, proto2 closed-enum numbers that are not declared",
+			"gogo values are the same value when the generated Equal and gogoproto.Equal say so AND a canonical bit-exact rendering of the tree (fields, sorted map keys, float bits, XXX_unrecognized) is equal; for a value holding a NaN only the rendering is consulted (gogo's Equal compares floats with ==). " +
+				"-0 in a scalar without presence (DoubleValue.Value, FloatValue.Value) counts as +0: gogo's generated code does not encode a scalar for which `v != 0` is false, so the gogo library itself does not distinguish them; in a oneof arm the sign is compared",
+			"KNOWN DEFECT, counted (`gogo_std_values_..._KNOWN_DEFECT_not_judged`) instead of judged: the deprecated gogo ProtobufMarshaler encodes a google.golang.org/protobuf message through gogo's struct-tag reflection, which silently leaves out the message's unknown fields, its extension fields and proto3 `optional bytes` fields that are present but empty " +
+				"(unless gogo fails - it panics on a populated oneof - and Marshal falls back to ProtoMarshaler). Such a value is skipped only when the payload is exactly the encoding of the value without these parts; any other difference, and every value whose payload is complete, is judged normally",
 			"the family of JSON-serialisable types is the set of values that encoding/json (the codec both JSON marshalers are documented to use) maps to themselves: in interface{} slots only nil, bool, float64, string, " +
 				"non-nil []interface{} and map[string]interface{} (what json.Unmarshal stores in an interface value per its godoc) - no ints, no NaN/Inf, no nil maps/slices, no structs in untyped slots",
 			"the text of a reply error is err.Error() of the handler error; its Go type is not expected to survive",
